@@ -41,6 +41,8 @@ _c.regex = _Engine
 class _Producer:
     def process_file(self, file, iConsumer):
         iConsumer.consume_instruction(Instruction("10", "mov", ["%rax", "%rbx"]))
+        # what the parser emits for a byte-continuation line: dropped by the observers, never part of the stream
+        iConsumer.consume_instruction(Instruction("12", "empty", []))
         iConsumer.consume_instruction(Instruction("13", "ret", []))
         iConsumer.finalize()
 
@@ -78,7 +80,7 @@ def harnesses(t):
     tuples = [(1, 1, 1, 1), (2, 2, 2, 2), (1, 2, 2, 0)] + ([(3, 3, 3, 3), (2, 0, 1, 4), (4, 1, 1, 1)] if t == "thorough" else [])
     for tp in tuples:
         tag = "".join(map(str, tp))
-        src = f'''def modes_{tag}(n: int, a1: str, r1: str, a2: str, r2: str) -> bool:
+        src = f'''def modes_{tag}(n: int, a1: str, r1: str, a2: str, r2: str, empty_hit: bool) -> bool:
     """
     pre: 0 <= n <= 2
     pre: len(a1) == {tp[0]} and len(r1) == {tp[1]} and len(a2) == {tp[2]} and len(r2) == {tp[3]}
@@ -87,6 +89,9 @@ def harnesses(t):
     """
     hits = [a1 + "::" + r1, a2 + "::" + r2][:n]
     addrs = [a1, a2][:n]
+    if empty_hit and n > 0:
+        # a rule that can match the empty sequence yields the empty text as a finding: still a finding
+        hits[0], addrs[0] = "", ""
     ok = True
     for all_mode in (False, True):
         for only_addr in (False, True):
